@@ -182,13 +182,18 @@ pub fn c01(s: &mut Sess, seed: u64, tier: &str) {
 pub fn c02(s: &mut Sess, seed: u64, tier: &str) {
     let mut r = rng(seed, 2);
     let ins = inputs(&mut r, tier, true);
+    let mut nin = 0usize;
     for (_name, keys) in ins {
         let big = keys.len() > 2000;
         let mode = if big { ValMode::Index } else { *pick(&mut r, VAL_MODES) };
         let items = assign(keys.clone(), mode, &mut r);
         s.reset();
         let geo = *pick(&mut r, GEOMETRIES);
-        let f = match s.build(Front::MapInsert, &items, if big { None } else { geo }) {
+        nin += 1;
+        // every fourth small input is streamed into a sink that accepts a few bytes per write
+        let built = if !big && nin % 4 == 1 { s.build_through_sink(&items, [0usize, 3, 5, 64][(nin / 4) % 4], seed + nin as u64) }
+                    else { s.build(Front::MapInsert, &items, if big { None } else { geo }) };
+        let f = match built {
             Some(f) => f,
             None => continue,
         };
@@ -252,7 +257,7 @@ pub fn exhaustive_reader(s: &mut Sess, tier: &str, with_aut: bool) {
         for d in 0..16usize {
             for m in 1..4usize {
                 let delta = vec![vec![1 + (d & 1), 1 + ((d >> 1) & 1)], vec![1 + ((d >> 2) & 1), 1 + ((d >> 3) & 1)]];
-                let mut a = TableAut { n: 2, start: 1, cls: cls.clone(), delta, matches: vec![m & 1 != 0, m & 2 != 0], can: vec![true; 2], always: vec![false; 2] };
+                let mut a = TableAut { n: 2, start: 1, cls: cls.clone(), delta, matches: vec![m & 1 != 0, m & 2 != 0], can: vec![true; 2], always: vec![false; 2], eof: vec![] };
                 a.exact_hints();
                 dfas.push(a.clone());
                 a.can = vec![true; 2];
@@ -353,13 +358,16 @@ pub fn c03(s: &mut Sess, seed: u64, tier: &str) {
     exhaustive_reader(s, tier, false);
     bounds_leaving_nodes(s, &mut r);
     let ins = inputs(&mut r, tier, true);
+    let mut nin = 0usize;
     for (_name, keys) in ins {
         let big = keys.len() > 2000;
         let mode = if big { ValMode::Index } else { *pick(&mut r, VAL_MODES) };
         let items = assign(keys.clone(), mode, &mut r);
         s.reset();
         let geo = if big { None } else { *pick(&mut r, GEOMETRIES) };
-        let f = match s.build(Front::MapInsert, &items, geo) {
+        nin += 1;
+        let built = if !big && nin % 5 == 2 { s.build_through_sink(&items, [3usize, 0, 7][(nin / 5) % 3], seed + nin as u64) } else { s.build(Front::MapInsert, &items, geo) };
+        let f = match built {
             Some(f) => f,
             None => continue,
         };
@@ -381,17 +389,60 @@ pub fn c03(s: &mut Sess, seed: u64, tier: &str) {
     }
 }
 
+/// Beyond C04 (which excludes it): automata with an end-of-key hook (`accept_eof`).  Hints are
+/// weakened to "may match" everywhere, since soundness of the precise hints is defined for
+/// hook-free automata.
+pub fn c04_eof(s: &mut Sess, seed: u64, tier: &str) {
+    let mut r = rng(seed, 404);
+    let ins = inputs(&mut r, tier, false);
+    for (_name, keys) in ins {
+        if keys.len() > 400 {
+            continue;
+        }
+        let items = assign(keys.clone(), *pick(&mut r, VAL_MODES), &mut r);
+        s.reset();
+        let f = match s.build(Front::MapInsert, &items, None) {
+            Some(f) => f,
+            None => continue,
+        };
+        let mut letters: Vec<u8> = keys.iter().flat_map(|k| k.iter().cloned()).take(64).collect();
+        letters.sort();
+        letters.dedup();
+        if letters.is_empty() {
+            letters.push(b'a');
+        }
+        let bk = bound_keys(&items, &mut r, 16);
+        for _ in 0..(if thorough(tier) { 12 } else { 4 }) {
+            let n = r.gen_range(1, 6);
+            let mut a = TableAut::random(&mut r, n, &letters);
+            a.can = vec![true; n];
+            a.always = vec![false; n];
+            a.eof = (0..n).map(|_| if r.gen_range(0, 3) == 0 { 0 } else { r.gen_range(1, n + 1) }).collect();
+            let aid = s.aut(&a);
+            for _ in 0..3 {
+                let b = if r.gen_range(0, 3) == 0 { vec![] } else { rand_bounds(&mut r, &bk) };
+                let via = *pick(&mut r, &["raw", "map", "set"]);
+                s.stream(f, via, &b, Some(aid), r.gen_range(0, 2) == 0, usize::MAX);
+            }
+        }
+    }
+}
+
 pub fn c04(s: &mut Sess, seed: u64, tier: &str) {
     let mut r = rng(seed, 4);
     exhaustive_reader(s, tier, true);
     let ins = inputs(&mut r, tier, false);
+    let mut nin = 0usize;
     for (_name, keys) in ins {
         if keys.len() > 1500 {
             continue;
         }
         let items = assign(keys.clone(), *pick(&mut r, VAL_MODES), &mut r);
         s.reset();
-        let f = match s.build(Front::MapInsert, &items, *pick(&mut r, GEOMETRIES)) {
+        nin += 1;
+        let geo = *pick(&mut r, GEOMETRIES);
+        let built = if nin % 5 == 3 { s.build_through_sink(&items, [5usize, 0, 2][(nin / 5) % 3], seed + nin as u64) } else { s.build(Front::MapInsert, &items, geo) };
+        let f = match built {
             Some(f) => f,
             None => continue,
         };
@@ -560,6 +611,7 @@ pub fn c06(s: &mut Sess, seed: u64, tier: &str) {
 pub fn c16(s: &mut Sess, seed: u64, tier: &str) {
     let mut r = rng(seed, 16);
     let ins = inputs(&mut r, tier, true);
+    let mut nin = 0usize;
     for (_name, keys) in ins {
         let big = keys.len() > 2000;
         for mode in &[ValMode::Index, ValMode::IndexFrom(1), ValMode::IncGaps, ValMode::IncHuge, ValMode::IndexFrom(255)] {
@@ -568,7 +620,10 @@ pub fn c16(s: &mut Sess, seed: u64, tier: &str) {
             }
             let items = assign(keys.clone(), *mode, &mut r);
             s.reset();
-            let f = match s.build(Front::MapInsert, &items, if big { None } else { *pick(&mut r, GEOMETRIES) }) {
+            nin += 1;
+            let geo = if big { None } else { *pick(&mut r, GEOMETRIES) };
+            let built = if !big && nin % 6 == 4 { s.build_through_sink(&items, [0usize, 3, 9][(nin / 6) % 3], seed + nin as u64) } else { s.build(Front::MapInsert, &items, geo) };
+            let f = match built {
                 Some(f) => f,
                 None => continue,
             };
